@@ -8,8 +8,18 @@ Open Scope Z_scope.
 
 (* one call on the RegExp object under test (or with it as argument); after
    every op the harness also reads r.lastIndex *)
+(* a value stored in lastIndex (it is a writable data property): what exec reads
+   is ToInteger of it (15.10.6.2 step 5), what r.lastIndex shows is the value itself *)
+Inductive lival :=
+| LInt (z : Z)               (* an integral Number, |z| <= 2^53 *)
+| LHalf (n : Z)              (* the Number n/2, n odd *)
+| LNaN | LPosInf | LNegInf
+| LStrInt (z : Z)            (* the String of decimal digits of z *)
+| LStrNaN (s : list Z)       (* a String that is not a numeric literal *)
+| LObj (z : Z).              (* an object whose valueOf reports the call ("VO") and returns z *)
+
 Inductive op :=
-| OSetLI (v : Z)                              (* r.lastIndex = v *)
+| OSetLI (v : lival)                          (* r.lastIndex = v *)
 | OExec (s : list Z)                          (* r.exec(s) *)
 | OTest (s : list Z)                          (* r.test(s), then RegExp.$1..$9, $_, input *)
 | OMatch (s : list Z)                         (* s.match(r) *)
@@ -19,6 +29,17 @@ Inductive op :=
 | OReplF (s : list Z) (ret : list Z)          (* s.replace(r, logging function returning ret + "<n>") *)
 | OReplStr (s pat : list Z) (repl : rv)       (* s.replace(pat, text | logging function), pat a string *)
 | OProps                                      (* r.source, r.global, r.ignoreCase, r.multiline, String(r) *)
+  (* a pattern argument that is not a RegExp object.  match and search build
+     new RegExp(ToString(arg)) (15.5.4.10, 15.5.4.12): OMatchArg / OSearchArg pass the
+     source of the tree under test (as a string, through toString of an object, as a
+     one-element array), OMatchLit / OSearchLit a number, null, undefined or an array
+     whose ToString is the given text of ordinary characters ([] for undefined).
+     split takes ToString(arg) literally (15.5.4.14), None = undefined. *)
+| OMatchArg (s : list Z)
+| OSearchArg (s : list Z)
+| OMatchLit (s txt : list Z)
+| OSearchLit (s txt : list Z)
+| OSplitStr (s : list Z) (sep : option (list Z)) (lim : option Z)
   (* a further RegExp object c is made from the current one r and kept:
      mode 0  new RegExp(r)      1  new RegExp(r, undefined)       (flags arguments ignored)
      mode 2  RegExp(r.source, flags)      3  new RegExp(r.source, flags)
@@ -74,11 +95,44 @@ Definition legacy_of (s : list Z) (c : caps) : list ov :=
   strs ++ repeat (OS []) (9 - length strs) ++ [OS s; OS s].
 
 (* one RegExp object: its flags and its lastIndex *)
-Definition robj : Type := bool * bool * bool * Z.
+Definition robj : Type := bool * bool * bool * lival.
+
+Definition two63 : Z := 9223372036854775808.
+Definition clamp64 (z : Z) : Z := if z >=? two63 then two63 - 1 else if z <=? - two63 then - two63 else z.
+(* ToInteger (9.4), with the infinities at the ends of the int64 range (any index
+   beyond the subject behaves alike); otto's Value.number().int64 is the same function *)
+Definition li_int (v : lival) : Z :=
+  match v with
+  | LInt z => clamp64 z
+  | LHalf n => Z.quot n 2
+  | LNaN => 0
+  | LPosInf => two63 - 1
+  | LNegInf => - two63
+  | LStrInt z => clamp64 z
+  | LStrNaN _ => 0
+  | LObj z => z
+  end.
+(* what reading r.lastIndex shows (the harness writes non-integral numbers as "NUM:..." ) *)
+Definition li_ov (v : lival) : ov :=
+  match v with
+  | LInt z => OZ z
+  | LHalf n => OS ([78; 85; 77; 58] ++ (if n <? 0 then [45] else []) ++ dec (Z.to_nat (Z.abs n / 2)) ++ [46; 53])
+  | LNaN => OS [78; 85; 77; 58; 78; 97; 78]
+  | LPosInf => OS [78; 85; 77; 58; 43; 73; 110; 102]
+  | LNegInf => OS [78; 85; 77; 58; 45; 73; 110; 102]
+  | LStrInt z => OS (if z <? 0 then 45 :: dec_fuel 25 (- z) [] else dec_fuel 25 z [])
+  | LStrNaN s => OS s
+  | LObj _ => OS [79; 66; 74; 58; 91; 111; 98; 106; 101; 99; 116; 32; 79; 98; 106; 101; 99; 116; 93]
+  end.
+(* ToNumber of an object calls its valueOf: the harness's valueOf pushes "VO" *)
+Definition li_read (v : lival) : list ov := match v with LObj _ => [OS [86; 79]] | _ => [] end.
+
+Definition lit_tree (txt : list Z) : re := fold_right (fun c t => RSeq (RCh (CLit c)) t) REmpty txt.
 
 Section Run.
 Variable spec_side : bool.       (* true: ES5 protocol; false: otto's *)
-Variable mk_mt : bool -> bool -> list Z -> nat -> mres.   (* the matcher for ignoreCase, multiline *)
+Variable eng : re -> bool -> bool -> list Z -> nat -> mres.   (* the matcher of a tree for ignoreCase, multiline *)
+Variable r : re.
 Variable dv : dev.
 Variable pat : list Z.
 
@@ -94,41 +148,73 @@ Definition new_flags (first ob : robj) (mode : Z) (g' i' m' : bool) : bool * boo
   let '(g0, i0, m0, _) := first in
   if mode <? 2 then (g, fi, fm) else if mode <? 4 then (g', i', m') else (g0, i0, m0).
 
-Definition do_op (first : robj) (o : op) (ob : robj) (leg : list ov) : option (list ov * Z * list ov) :=
-  let '(g, fi, fm, li) := ob in
-  let mt := mk_mt fi fm in
-  let wrap (x : option (list ov * Z)) := match x with None => None | Some (a, l) => Some (a, l, leg) end in
+Definition do_op (first : robj) (o : op) (ob : robj) (leg : list ov) : option (list ov * lival * list ov) :=
+  let '(g, fi, fm, lv) := ob in
+  let li := li_int lv in
+  let mt := eng r fi fm in
+  let same (x : option (list ov * Z)) := match x with None => None | Some (a, _) => Some (a, lv, leg) end in
   let ex := if spec_side then exec_spec mt g else exec_model mt dv g in
+  (* 15.10.6.2: lastIndex is read once (ToInteger), stored for a global expression and on failure *)
+  let stored (m : option mtch) (l : Z) := if g then LInt l else match m with None => LInt l | Some _ => lv end in
+  let fresh_ex (t : re) := if spec_side then exec_spec (eng t false false) false 0 else exec_model (eng t false false) dv false 0 in
   match o with
   | OSetLI v => Some ([], v, leg)
-  | OExec s => match ex li s with None => None | Some (m, l) => Some (exec_obs s m, l, leg) end
+  | OExec s => match ex li s with None => None | Some (m, l) => Some (li_read lv ++ exec_obs s m, stored m l, leg) end
   | OTest s =>
       match ex li s with
       | None => None
-      | Some (None, l) => Some ([OB false], l, leg)
-      | Some (Some (_, _, c), l) => Some ([OB true], l, legacy_of s c)
+      | Some (None, l) => Some (li_read lv ++ [OB false], stored None l, leg)
+      | Some (Some (i, e, c), l) => Some (li_read lv ++ [OB true], stored (Some (i, e, c)) l, legacy_of s c)
       end
-  | OMatch s => wrap (if spec_side then match_spec mt g li s else match_model mt dv g li s)
-  | OSearch s => wrap (if spec_side then search_spec mt li s else search_model mt dv li s)
+  | OMatch s =>
+      if g then
+        match (if spec_side then match_spec mt g li s else match_model mt dv g li s) with
+        | None => None
+        | Some (a, l) => Some (a, LInt l, leg)
+        end
+      else match ex li s with None => None | Some (m, l) => Some (li_read lv ++ exec_obs s m, stored m l, leg) end
+  | OSearch s => same (if spec_side then search_spec mt li s else search_model mt dv li s)
   | OSplit s lim =>
-      wrap (if spec_side then split_spec mt li s (lim32 lim)
+      same (if spec_side then split_spec mt li s (lim32 lim)
             else split_model mt li s (lim32 lim) (match lim with None => false | _ => true end))
-  | OReplS s rp => wrap (if spec_side then replace_spec mt g li s (RText rp) else replace_model mt dv g li s (RText rp))
-  | OReplF s ret => wrap (if spec_side then replace_spec mt g li s (RFun ret) else replace_model mt dv g li s (RFun ret))
+  | OReplS s rp =>
+      match (if spec_side then replace_spec mt g li s (RText rp) else replace_model mt dv g li s (RText rp)) with
+      | None => None
+      | Some (a, l) =>
+          let w := if spec_side then g else match lv with LInt _ => g | _ => replace_written mt dv g s end in
+          Some (a, if w then LInt l else lv, leg)
+      end
+  | OReplF s ret =>
+      match (if spec_side then replace_spec mt g li s (RFun ret) else replace_model mt dv g li s (RFun ret)) with
+      | None => None
+      | Some (a, l) =>
+          let w := if spec_side then g else match lv with LInt _ => g | _ => replace_written mt dv g s end in
+          Some (a, if w then LInt l else lv, leg)
+      end
   | OReplStr s p rp =>
       match (if spec_side then replace_str expand_spec s p rp else replace_str_model dv s p rp) with
       | None => None
-      | Some a => Some (a, li, leg)
+      | Some a => Some (a, lv, leg)
       end
-  | OProps => Some ([OS pat; OB g; OB fi; OB fm; OS ([47] ++ pat ++ [47] ++ flag_text g fi fm)], li, leg)
+  | OProps => Some ([OS pat; OB g; OB fi; OB fm; OS ([47] ++ pat ++ [47] ++ flag_text g fi fm)], lv, leg)
+  | OMatchArg s => match fresh_ex r s with None => None | Some (m, _) => Some (exec_obs s m, lv, leg) end
+  | OMatchLit s txt => match fresh_ex (lit_tree txt) s with None => None | Some (m, _) => Some (exec_obs s m, lv, leg) end
+  | OSearchArg s => same (if spec_side then search_spec (eng r false false) 0 s else search_model (eng r false false) dv 0 s)
+  | OSearchLit s txt =>
+      same (if spec_side then search_spec (eng (lit_tree txt) false false) 0 s
+            else search_model (eng (lit_tree txt) false false) dv 0 s)
+  | OSplitStr s sep lim =>
+      if spec_side then
+        match split_str_spec s sep (lim32 lim) with None => None | Some a => Some (a, lv, leg) end
+      else Some (split_str_model s sep (lim32 lim) (match lim with None => false | _ => true end), lv, leg)
   | ONew mode g' i' m' =>
       (* 15.10.4.1: a new object, lastIndex 0; from a RegExp argument it takes pattern and flags *)
       let '(g2, i2, m2) := new_flags first ob mode g' i' m' in
-      Some ([OB true; OS pat; OB g2; OB i2; OB m2; OZ 0; OB true; OB false], li, leg)
+      Some ([OB true; OS pat; OB g2; OB i2; OB m2; OZ 0; OB true; OB false], lv, leg)
   | OIdent =>
       (* 15.10.3.1: RegExp(R) with flags undefined returns R; 15.10.4.1: flags with a RegExp is a TypeError *)
-      Some ([OB true; OB true; OS [84; 121; 112; 101; 69; 114; 114; 111; 114]], li, leg)
-  | OSelect _ => Some ([], li, leg)
+      Some ([OB true; OB true; OS [84; 121; 112; 101; 69; 114; 114; 111; 114]], lv, leg)
+  | OSelect _ => Some ([], lv, leg)
   end.
 
 Fixpoint set_obj (n : nat) (v : robj) (l : list robj) : list robj :=
@@ -144,19 +230,19 @@ Fixpoint do_ops (ops : list op) (objs : list robj) (cur : nat) (leg : list ov) (
   | [] => Some (acc, accl)
   | o :: rest =>
       let cur1 := match o with OSelect j => Nat.modulo j (length objs) | _ => cur end in
-      let ob := nth cur1 objs (false, false, false, 0) in
-      match do_op (nth 0 objs (false, false, false, 0)) o ob leg with
+      let ob := nth cur1 objs (false, false, false, LInt 0) in
+      match do_op (nth 0 objs (false, false, false, LInt 0)) o ob leg with
       | None => None
       | Some (a, li', leg') =>
           let '(g, fi, fm, _) := ob in
           let objs1 := set_obj cur1 (g, fi, fm, li') objs in
           let objs2 := match o with
                        | ONew mode g' i' m' =>
-                           objs1 ++ [let '(g2, i2, m2) := new_flags (nth 0 objs (false, false, false, 0)) ob mode g' i' m' in
-                                     (g2, i2, m2, 0)]
+                           objs1 ++ [let '(g2, i2, m2) := new_flags (nth 0 objs (false, false, false, LInt 0)) ob mode g' i' m' in
+                                     (g2, i2, m2, LInt 0)]
                        | _ => objs1
                        end in
-          do_ops rest objs2 cur1 leg' (acc ++ a ++ [OZ li'])
+          do_ops rest objs2 cur1 leg' (acc ++ a ++ [li_ov li'])
                  (match o with OTest _ => accl ++ leg' | _ => accl end)
       end
   end.
@@ -170,11 +256,11 @@ Definition cfg_sem (k : Z) : sem := mkSem (negb (1 <=? k)) (negb (2 <=? k)) (neg
 Definition cfg_dev (k : Z) : dev := mkDev (4 <=? k) (5 <=? k) (6 <=? k) (7 <=? k) (9 <=? k).
 
 Definition run_sd (sm : sem) (dv : dev) (r : re) (g i m : bool) (ops : list op) : option (list ov * list ov) :=
-  do_ops false (fun fi fm => engine sm (mkFlags fi fm) r) dv (print_js r) ops [(g, i, m, 0)] 0 legacy0 [] [].
+  do_ops false (fun t fi fm => engine sm (mkFlags fi fm) t) r dv (print_js r) ops [(g, i, m, LInt 0)] 0 legacy0 [] [].
 Definition run_cfg (k : Z) := run_sd (cfg_sem k) (cfg_dev k).
 Definition run_otto := run_cfg 9.
 Definition run_es5 (r : re) (g i m : bool) (ops : list op) : option (list ov * list ov) :=
-  do_ops true (fun fi fm => engine es5 (mkFlags fi fm) r) all_off (print_js r) ops [(g, i, m, 0)] 0 legacy0 [] [].
+  do_ops true (fun t fi fm => engine es5 (mkFlags fi fm) t) r all_off (print_js r) ops [(g, i, m, LInt 0)] 0 legacy0 [] [].
 
 (* finding classes 1..9 = the first deviation that, switched on cumulatively, makes the
    outcome differ from ES5:
